@@ -3,6 +3,7 @@ package pipeline
 import (
 	"fmt"
 	"go/ast"
+	"go/token"
 	"slices"
 	"strings"
 
@@ -202,6 +203,12 @@ func (p *GleecePipeline) appendRouteImports(imports map[string]MapSet.Set[string
 	for _, retVal := range route.Responses {
 		retValPkgPath := retVal.PkgPath
 		if retValPkgPath == "" {
+			continue
+		}
+
+		// Composite return types such as 'map[string]int' are never referenced by name in the generated code,
+		// and their name cannot form an import alias
+		if !token.IsIdentifier(common.UnwrapArrayTypeString(retVal.Name)) {
 			continue
 		}
 
